@@ -141,6 +141,9 @@ func main() {
 			args []string
 		}
 		jobs := []job{{"concurrent", []string{"-seed", sd, "-n", fmt.Sprint(*count)}}, {"queue", []string{"-seed", sd, "-n", map[bool]string{false: "4", true: "12"}[thorough]}}}
+		big := map[bool]string{false: "3000", true: "6000"}[thorough]
+		jobs = append(jobs, job{"burst", []string{"-seed", sd, "-mode", "small", "-n", map[bool]string{false: "6000", true: "30000"}[thorough]}},
+			job{"burst", []string{"-seed", sd, "-mode", "64k", "-n", big}})
 		modes := []string{"down", "stalled", "garbling"}
 		if *sel == "c16" {
 			// the honest connections and the scripted faulty peer's handshakes, interleaved
@@ -173,6 +176,12 @@ func main() {
 		scenarioQueue(*seed, *count)
 	case "child-faulty":
 		scenarioFaulty(*seed, 4, *bad, *mode, *count)
+	case "child-burst":
+		pl := 12
+		if *mode == "64k" {
+			pl = 65536
+		}
+		scenarioBurst(*seed, *mode, *count, pl)
 	case "child-stall10":
 		scenarioStall10()
 	default:
